@@ -170,7 +170,10 @@ def check_case(case):
                 require(_close(got, full[perm]), name + ".row_order", lambda: "%s not equivariant under row permutation" % name)
                 # column swap
                 got = np.asarray(f(swapped), dtype=float)
-                require(_close(got, full, scale=(oscale + 1e-300) if name == "mean" else None), name + ".column_swap", lambda: "%s changes when the treatment columns are swapped: %r vs %r (ids %r)" % (name, got.tolist(), full.tolist(), tid.tolist()))
+                # swapping the columns re-associates products/sums: the mean may move by rounding error proportional to the size of
+                # its terms (oscale); viability has slope <= 1 in the mean, so the same absolute tolerance applies to it
+                swap_scale = None if name == "variance" else (oscale + np.abs(full) + 1e-300)
+                require(_close(got, full, scale=swap_scale), name + ".column_swap", lambda: "%s changes when the treatment columns are swapped: %r vs %r (ids %r)" % (name, got.tolist(), full.tolist(), tid.tolist()))
             # control neutrality
             for r in range(n):
                 a, b = tid[r]
